@@ -253,6 +253,16 @@ def run(ctx):
         ax = abs(core.sf(x)) or 1.0
         return rng.choice([0, ax * 1e-6, ax * 0.01, ax * 0.3, ax * 2.5, 0.5])
 
+    def typed_sigma(x, s):
+        """the uncertainty in the measurand's numeric type, or - one case in four - in another one (a Decimal
+        reading with a float or int tolerance, a float reading with a Decimal tolerance)"""
+        if rng.random() < 0.75:
+            return s if not isinstance(x, Decimal) else Decimal(repr(s))
+        ctx.count("operands_with_mixed_numeric_types")
+        if isinstance(x, Decimal):
+            return rng.choice([s, s, max(1, round(s)) if s else 0])
+        return Decimal(repr(s))
+
     if ctx.shard == 0:
         # deterministic witness of the known finding (mixed SI/IEC prefix: the root of sigma**2 is refused)
         try:
@@ -277,7 +287,8 @@ def run(ctx):
             continue
         x = mag()
         sx = sigma_for(x)
-        A = Mt(Q(x, ua), sx if not isinstance(x, Decimal) else Decimal(repr(sx)))
+        A = Mt(Q(x, ua), typed_sigma(x, sx))
+        sx = core.sf(A.uncertainty.magnitude)
         if opname in ("add", "sub"):
             fb = pools.same_dimension_alternative(rng, fa, compose_prob=0.1) if rng.random() < 0.6 else fa
         else:
@@ -304,7 +315,8 @@ def run(ctx):
                 continue
         sy = sigma_for(y)
         side = rng.choice(["M-M", "M-M", "M-Q", "Q-M"])
-        B = Mt(Q(y, ub), sy if not isinstance(y, Decimal) else Decimal(repr(sy)))
+        B = Mt(Q(y, ub), typed_sigma(y, sy))
+        sy = core.sf(B.uncertainty.magnitude)
         left, right = A, B
         if side == "M-Q":
             right, sy = B.measurand, 0
